@@ -117,6 +117,23 @@ func refusedHasNoEffect(run *vh.Run, h appdrv.History, rs []appdrv.Resp) {
 		return
 	}
 	for i, c := range h.Calls {
+		// a structurally invalid batch config (no keypers, threshold 0, threshold above the number
+		// of keypers AS AN UNSIGNED NUMBER, a keyper entry that is not 20 bytes) must be refused,
+		// whoever sends it - judged here from the payload alone
+		if c.Kind == "deliver" && i < len(rs) && rs[i].Panic == "" && rs[i].Code == 0 {
+			if m, ok := appdrv.MessageOf(c.Tx); ok && m.GetBatchConfig() != nil {
+				bc := m.GetBatchConfig()
+				bad := len(bc.Keypers) == 0 || bc.Threshold == 0 || bc.Threshold > uint64(len(bc.Keypers))
+				for _, k := range bc.Keypers {
+					if len(k) != 20 {
+						bad = true
+					}
+				}
+				if bad {
+					run.Violate(vh.Violation{Key: "C10:malformed-payload-accepted", What: fmt.Sprintf("call %d (%s): a structurally invalid batch config (threshold %d, %d keypers) was answered with code 0", i, c.Note, bc.Threshold, len(bc.Keypers)), Case: injected{History: h, At: -1}, Observed: rs[i]})
+				}
+			}
+		}
 		if c.Kind != "deliver" || i >= len(rs) || rs[i].Panic != "" || rs[i].Code != 1 {
 			if r := appdrv.Exec(a, c); r.Panic != "" {
 				return
